@@ -143,12 +143,19 @@ fn simple_pattern(p: &mut Parser) -> Option<MarkerClosed> {
                 }
             }
         }
-        _ => unreachable!(),
+        // Only reachable when the look-ahead fuel ran out between the check above and this
+        // `peek`: report it like a missing pattern.
+        _ => {
+            let m = p.open();
+            p.error("expected a pattern");
+            p.close(m, MySyntaxKind::ErrorTree);
+            return None;
+        }
     })
 }
 
 fn struct_pattern_field_list(p: &mut Parser) {
-    assert!(p.at(T!['{']));
+    assert!(p.at_unmetered(T!['{']));
     let m = p.open();
     p.expect(T!['{']);
     while !p.eof() && !p.at(T!['}']) {
@@ -164,7 +171,7 @@ fn struct_pattern_field_list(p: &mut Parser) {
 }
 
 fn struct_pattern_field(p: &mut Parser) {
-    assert!(p.at(T![ident]));
+    assert!(p.at_unmetered(T![ident]));
     let m = p.open();
     p.expect(T![ident]);
     if p.at(T![:]) {
